@@ -96,6 +96,22 @@ def with_loop_headers(body, blocks):
 DROPPERS = {"ok", "is_ok", "is_err", "unwrap_or", "unwrap_or_default", "unwrap_or_else", "drop", "err"}
 
 
+def _iter_keeps_errors(body, b):
+    """The iterator made by the call in block b is given to `filter_map(Result::err)`: the errors of the collected
+    results are what is kept."""
+    for x, t in body.calls():
+        if mir.last_seg(mir.callee(t) or "") != "filter_map" or len(t["args"]) != 2:
+            continue
+        fn = t["args"][1]
+        if fn["k"] != "const" or fn.get("fn") != "std::result::Result::<T, E>::err":
+            continue
+        # (the tracer looks through into_iter: the receiver of filter_map has the origins of what was iterated)
+        got = body.trace_operand(t["args"][0])
+        if any(r[:2] == ("call", b) for (r, p) in got) or got & body.trace_operand(body.term(b)["args"][0]):
+            return True
+    return False
+
+
 def rule_t1(ctx):
     res = RuleResult("T1", "no type error is dropped")
     n = 0
@@ -153,6 +169,8 @@ def rule_t1(ctx):
                             continue
                         if err_payload or (whole and seg in ("branch", "return", "insert", "push", "extend", "from_residual", "map_err", "clone")):
                             consumed.setdefault(r[1], how)
+                        elif whole and seg == "into_iter" and _iter_keeps_errors(body, b):
+                            consumed.setdefault(r[1], "[results].into_iter().filter_map(Result::err)")
         for pb, t in producers.items():
             n += 1
             cal = mir.callee(t)
@@ -542,12 +560,19 @@ def rule_t5(ctx):
                     out.append(b)
         return out
     contains, insert, remove = guard_calls("contains"), guard_calls("insert"), guard_calls("remove")
+    # `if !set.insert(name) { recursion }` tests and sets in one call: an insert whose result decides a branch is a test as well
+    for i in insert:
+        for x in range(body.n):
+            t = body.term(x)
+            if t and t["k"] == "switch" and any(r[:2] == ("call", i) for (r, p) in body.deep_sources(t["discr"], 2)):
+                contains = contains + [i]
+                break
     blocks = [b for b, t in body.calls() if mir.last_seg(mir.callee(t) or "") == "type_check_block"]
     if not blocks:
         raise AnchorMissing("T5: UntypedFnDef::type_check does not call type_check_block")
     for b in blocks:
         if contains and any(body.dominates(c, b) for c in contains):
-            res.ok({"verdict": "currently_being_checked.contains tested before the body"})
+            res.ok({"verdict": "membership in currently_being_checked tested before the body"})
         else:
             res.bad(Finding("T5", f["id"], "no recursion test", "the body is checked without testing whether the function is already being checked: (mutual) recursion loops or is accepted", body.term(b)["sp"]))
         if insert and any(body.dominates(i, b) for i in insert):
